@@ -76,6 +76,18 @@ def make_items(tier, seed):
         items.append({"ob": "target", "src": src, "y": y})
     items.append({"ob": "twice", "src": "def pred(x: Qint[3]) -> bool:\n    return x == 5\n"})
     items.append({"ob": "twice", "src": "def pred(x: Qint[2]) -> bool:\n    return x == 2\n"})
+    # the real wrapper around real compiled predicates, exact amplitudes: predicates that ignore part of
+    # the search register, and the same solution set spelled differently
+    e2e = [
+        ("Qint[4]", "(x >> 1) == 5"), ("Qint[4]", "x == 10 or x == 11"), ("Qint[4]", "x[1] and x[2] and x[3]"), ("Qint[3]", "x[2] and x[1]"),
+        ("Tuple[Qint[2], bool, Qint[2]]", "x[0] == 2 and x[2] == 1"), ("Tuple[bool, bool, bool, bool]", "x[0] and x[3] and not x[1]"),
+        ("Qint[4]", "x == 9"), ("Tuple[Qint[2], Qint[2]]", "x[0] + x[1] == 6"), ("Qlist[bool, 4]", "x[0] and all(x)"), ("Qint[5]", "(x >> 2) == 5"),
+    ]
+    for arg, src in e2e:
+        for opt in ("default", "fast"):
+            items.append({"ob": "endtoend", "src": "def pred(x: %s) -> bool:\n    return %s\n" % (arg, src), "opt": opt})
+    for arg, src in [("Qmatrix[bool, 2, 2]", "x[0][0] and x[1][1] and not x[0][1] and not x[1][0]"), ("Tuple[Qint[2], Tuple[bool, Qint[2]]]", "x[0] == 1 and x[1][0] and x[1][1] == 2"), ("Qlist[Tuple[bool, Qint[2]], 2]", "x[0][0] and x[1][1] == 3 and not x[1][0] and x[0][1] == 0")]:
+        items.append({"ob": "decode", "src": "def pred(x: %s) -> bool:\n    return %s\n" % (arg, src)})
     for arg, src in [("Qint[3]", "x == 5"), ("Tuple[Qint[2], bool]", "x[0] == 2 and x[1]"), ("Qlist[bool, 3]", "all(x)"), ("bool", "x"), ("Tuple[Tuple[bool, Qint[2]], bool]", "x[0][0] and x[1] and x[0][1] == 1"), ("Qchar", "x == 'a'")]:
         items.append({"ob": "decode", "src": "def pred(x: %s) -> bool:\n    return %s\n" % (arg, src)})
     return items
@@ -336,6 +348,30 @@ def check_item(spec):
                 finding("grover-target", "search g(x) == %r (solutions %s): %s" % (y, sorted(sols), w_))
         for kind, what in algo.oracle_contract(G.oracle, st) if hasattr(G, "oracle") and False else []:
             pass
+        return st.into(res)
+
+    if ob == "endtoend":
+        from ..circ import opts
+
+        qf = qlassf(spec["src"], to_compile=True, bool_optimizer=opts()[spec.get("opt", "default")])
+        ins = circ.input_bits(qf)
+        n = len(ins)
+        sols = {x for x in range(1 << n) if boolq.eval_exprs_concrete(qf.expressions, {b: bool(qamp.bit(x, k)) for k, b in enumerate(ins)})["_ret"]}
+        if not sols or len(sols) * 4 > (1 << n):
+            res.update(status="skip", note="solution count outside the statement")
+            return st.into(res)
+        try:
+            G = Grover(qf, n_matching=len(sols))
+            qc = G.circuit()
+            P, hc = simulate_concrete_table(qc.gates, qc.num_qubits, None, n)
+        except qamp.Unsupported as e:
+            res.update(status="inconclusive", note=str(e))
+            return st.into(res)
+        except Exception as e:
+            finding("endtoend-raises", "%s: %s" % (type(e).__name__, str(e)[:80]))
+            return st.into(res)
+        for w_ in judge_distribution(P, hc, sols, n):
+            finding("grover-endtoend", "solutions %s, %d iterations: %s" % (sorted(sols), G.n_iterations, w_))
         return st.into(res)
 
     if ob == "twice":
